@@ -788,7 +788,7 @@ func (rg *Rig) Run() {
 			gs = append(gs, e.Go(fmt.Sprintf("writer%d.%d", s, w), func() {
 				seq := st.Seq0 + uint16(w)*30000
 				h := &rtp.Header{}
-				var buf []byte
+				buf := make([]byte, 0, 4096) // (never nil: an empty payload must look the same with fresh and with reused buffers)
 				for _, o := range sops {
 					simrt.SleepUntil(us(o.AtUs))
 					seq += uint16(o.Gap)
